@@ -16,6 +16,8 @@ CONSTANTS
   ClockAnomalies = FALSE
   CacheLoss = FALSE
   LiveRounds = FALSE
+  CachePutFails = TRUE
+  CrashInCreate = TRUE
   Stops = FALSE
 INVARIANTS PubAppendOnly
 
